@@ -36,15 +36,15 @@ type PropDef struct {
 var propDefs = map[string]*PropDef{}
 
 type checkCtx struct {
-	prop  *PropDef
-	tier  string
-	seed  int64
-	progs map[string]*Prog
-	specs map[string]*Specs
-	mu    sync.Mutex
-	fns   map[string]bool // functions under contract
-	ext   map[string]bool // extern models / assumptions used
-	bounded []string
+	prop      *PropDef
+	tier      string
+	seed      int64
+	progs     map[string]*Prog
+	specs     map[string]*Specs
+	mu        sync.Mutex
+	fns       map[string]bool // functions under contract
+	ext       map[string]bool // extern models / assumptions used
+	bounded   []string
 	boundedOK []string
 }
 
@@ -519,9 +519,14 @@ func writeEvidence(c *checkCtx, id, tier string, seed int64, all []OblResult, di
 		"wall_s":      wall,
 		"violations":  violations,
 	}
-	os.MkdirAll(filepath.Join(verifRoot, "evidence"), 0o755)
+	evDir := filepath.Join(verifRoot, "evidence")
+	if os.Getenv("GOVC_REPO") != "" {
+		// a run against a scratch tree (selftest) does not describe /repo: keep its evidence apart
+		evDir = filepath.Join(os.TempDir(), "govc-selftest-evidence")
+	}
+	os.MkdirAll(evDir, 0o755)
 	data, _ := json.MarshalIndent(ev, "", " ")
-	os.WriteFile(filepath.Join(verifRoot, "evidence", id+".json"), append(data, '\n'), 0o644)
+	os.WriteFile(filepath.Join(evDir, id+".json"), append(data, '\n'), 0o644)
 }
 
 // baselineOrder returns the committed inventory in its stored order.
